@@ -515,7 +515,14 @@ def carried_with_entry(chk: Check, carried, entry_term):
     """The loop-carried variable whose value on loop entry equals `entry_term`."""
     for name, info in carried.items():
         phi = info["phi"]
-        if phi[0] == "phi" and S.equiv(phi[3], entry_term, n=40).equal is True:
+        if phi[0] != "phi":
+            continue
+        if S.is_const(entry_term) or S.is_const(phi[3]):
+            # constants: same value AND same type (0 is not False, None is not 0)
+            if S.is_const(entry_term) and S.is_const(phi[3]) and phi[3][1] == entry_term[1] and type(phi[3][1]) is type(entry_term[1]):
+                return name, info
+            continue
+        if S.equiv(phi[3], entry_term, n=40).equal is True:
             return name, info
     return None, None
 
@@ -881,3 +888,61 @@ def select_branch(t, val):
         except S.EvalError:
             return t
     return t
+
+
+# ---------------------------------------------------------------------------------------
+# CFG walk under a valuation of terms (predicate abstraction: tests are evaluated on the checker's terms)
+
+
+def walk_cfg(chk: Check, ctx: FuncCtx, start, val, stop=None, limit=400, within=None):
+    """Follow the CFG from `start` choosing test edges by evaluating the test term under `val`.
+    Returns (visited nodes in order, exit) with exit in 'return' / 'raise' / 'break' / 'continue' / 'back' /
+    'exit' / 'stop' / 'fork' (a test could not be evaluated) / 'limit'.
+    `within`: set of nodes; leaving it ends the walk with ('left', node)."""
+    node = start
+    seen = []
+    for _ in range(limit):
+        if stop is not None and stop(node) and node is not start:
+            return seen, ("stop", node)
+        if node.kind in ("exit",):
+            return seen, ("exit", node)
+        if node.kind == "raise":
+            return seen, ("raise", node)
+        if within is not None and node not in within:
+            return seen, ("left", node)
+        if node in seen and node.kind in ("test", "for") and isinstance(node.ast, (ast.While, ast.For)):
+            return seen, ("back", node)
+        seen.append(node)
+        a = node.ast
+        if node.kind == "stmt":
+            if isinstance(a, ast.Return):
+                return seen, ("return", node)
+            if isinstance(a, ast.Raise):
+                return seen, ("raise", node)
+            if isinstance(a, ast.Break):
+                return seen, ("break", node)
+            if isinstance(a, ast.Continue):
+                return seen, ("continue", node)
+        succ = [(s, lab) for s, lab in node.succ if lab != "exc"]
+        if node.kind == "test":
+            t = chk.R.expr(ctx, a.test, node)
+            try:
+                v = bool(S.ev(t, val))
+            except S.EvalError:
+                return seen, ("fork", node)
+            nxt = [s for s, lab in succ if lab == ("T" if v else "F")]
+            if not nxt:
+                return seen, ("exit", node)
+            node = nxt[0]
+            continue
+        if node.kind == "for":
+            # entering the body is decided by the caller through `start`; reaching the header again is a back edge
+            if node is not start:
+                return seen, ("back", node)
+            nxt = [s for s, lab in succ if lab == "T"]
+            node = nxt[0] if nxt else succ[0][0]
+            continue
+        if not succ:
+            return seen, ("exit", node)
+        node = succ[0][0]
+    return seen, ("limit", node)
